@@ -30,11 +30,21 @@ type bulkElem struct {
 type bulkCase struct {
 	Bulk []bulkElem `json:"bulk"`
 	Cont bool       `json:"cont"`
+	Pat  string     `json:"pat"` // which positions carry attributes of their own: none | all | odd | even
 }
 
+// what the backend was handed: the element (el), whether the call failed, the idempotency key and - for
+// CREATE - the other per-element attributes (reference, timestamp, the extra metadata key) as one string:
+// "<pos>" when all three are the element's own, "" when none is present, anything else is a mixture
 type callObs struct {
-	El  int  `json:"el"`
-	Err bool `json:"err"`
+	El   int    `json:"el"`
+	Err  bool   `json:"err"`
+	Ik   string `json:"ik"`
+	Attr string `json:"attr"`
+}
+
+func rich(pat string, pos int) bool {
+	return pat == "all" || (pat == "odd" && pos%2 == 1) || (pat == "even" && pos%2 == 0)
 }
 
 // tagging writer: records, for each backend write call, the element it came
@@ -45,33 +55,43 @@ type tagWriter struct {
 	calls []callObs
 }
 
-func (t *tagWriter) note(el int, err error) {
+func (t *tagWriter) note(el int, err error, p command.Parameters, attr string) {
 	t.mu.Lock()
-	t.calls = append(t.calls, callObs{El: el, Err: err != nil})
+	t.calls = append(t.calls, callObs{El: el, Err: err != nil, Ik: p.IdempotencyKey, Attr: attr})
 	t.mu.Unlock()
 }
 
 func (t *tagWriter) CreateTransaction(ctx context.Context, p command.Parameters, data ledger.RunScript) (*ledger.Transaction, error) {
 	tx, err := t.inner.CreateTransaction(ctx, p, data)
 	el, _ := strconv.Atoi(data.Metadata["el"])
-	t.note(el, err)
+	// reference "ref-<pos>", timestamp day <pos> of 2030-01, metadata extra = "<pos>"
+	attr := ""
+	if data.Reference != "" || !data.Timestamp.IsZero() || data.Metadata["extra"] != "" {
+		ref := strings.TrimPrefix(data.Reference, "ref-")
+		if ref == data.Metadata["extra"] && !data.Timestamp.IsZero() && strconv.Itoa(data.Timestamp.Day()) == ref {
+			attr = ref
+		} else {
+			attr = fmt.Sprintf("mixed:ref=%s,ts=%v,extra=%s", data.Reference, data.Timestamp, data.Metadata["extra"])
+		}
+	}
+	t.note(el, err, p, attr)
 	return tx, err
 }
 func (t *tagWriter) RevertTransaction(ctx context.Context, p command.Parameters, id *big.Int, force bool) (*ledger.Transaction, error) {
 	tx, err := t.inner.RevertTransaction(ctx, p, id, force)
-	t.note(int(id.Int64()%100), err) // seeded transaction k is reverted by element k; 900+k for failing ones
+	t.note(int(id.Int64()%100), err, p, "") // seeded transaction k is reverted by element k; 900+k for failing ones
 	return tx, err
 }
 func (t *tagWriter) SaveMeta(ctx context.Context, p command.Parameters, targetType string, targetID any, m metadata.Metadata) error {
 	err := t.inner.SaveMeta(ctx, p, targetType, targetID, m)
 	el, _ := strconv.Atoi(m["el"])
-	t.note(el, err)
+	t.note(el, err, p, "")
 	return err
 }
 func (t *tagWriter) DeleteMetadata(ctx context.Context, p command.Parameters, targetType string, targetID any, key string) error {
 	err := t.inner.DeleteMetadata(ctx, p, targetType, targetID, key)
 	el, _ := strconv.Atoi(strings.TrimPrefix(key, "k"))
-	t.note(el, err)
+	t.note(el, err, p, "")
 	return err
 }
 
@@ -88,11 +108,16 @@ func seedTxs(n int) []*ledger.ChainedLog {
 	return out
 }
 
-func elementJSON(i int, e bulkElem, ik bool) string {
+func elementJSON(i int, e bulkElem, pat string) string {
 	pos := i + 1
-	key := ""
-	if ik {
-		key = fmt.Sprintf(`"ik":"key-%s",`, e.Kind)
+	key, extra := "", ""
+	if rich(pat, pos) {
+		if pat == "all" {
+			key = fmt.Sprintf(`"ik":"key-%s",`, e.Kind)
+		} else {
+			key = fmt.Sprintf(`"ik":"key-%d",`, pos)
+		}
+		extra = fmt.Sprintf(`,"reference":"ref-%d","timestamp":"2030-01-%02dT00:00:00Z"`, pos, pos)
 	}
 	switch e.Kind {
 	case "CREATE":
@@ -100,7 +125,11 @@ func elementJSON(i int, e bulkElem, ik bool) string {
 		if e.Fail {
 			src, amt = "nobody", 100
 		}
-		return fmt.Sprintf(`{"action":"CREATE_TRANSACTION",%s"data":{"postings":[{"source":"%s","destination":"bank","amount":%d,"asset":"USD"}],"metadata":{"el":"%d"}}}`, key, src, amt, pos)
+		mdExtra := ""
+		if extra != "" {
+			mdExtra = fmt.Sprintf(`,"extra":"%d"`, pos)
+		}
+		return fmt.Sprintf(`{"action":"CREATE_TRANSACTION",%s"data":{"postings":[{"source":"%s","destination":"bank","amount":%d,"asset":"USD"}],"metadata":{"el":"%d"%s}%s}}`, key, src, amt, pos, mdExtra, extra)
 	case "ADD_META":
 		if e.Fail {
 			return fmt.Sprintf(`{"action":"ADD_METADATA",%s"data":{"targetType":"TRANSACTION","targetId":999,"metadata":{"el":"%d"}}}`, key, pos)
@@ -125,7 +154,7 @@ func elementJSON(i int, e bulkElem, ik bool) string {
 	return `{}`
 }
 
-func runBulk(c bulkCase, ik bool) map[string]any {
+func runBulk(c bulkCase) map[string]any {
 	cmd, _ := apiback.NewEngine(nil, seedTxs(12)...)
 	defer func() { go func() { defer func() { _ = recover() }(); cmd.Close() }() }()
 	tw := &tagWriter{inner: cmd}
@@ -133,7 +162,7 @@ func runBulk(c bulkCase, ik bool) map[string]any {
 	r := newRouter(&apiback.Backend{Rec: rec, Writers: map[string]apiback.Writer{"*": tw}}, false)
 	parts := []string{}
 	for i, e := range c.Bulk {
-		parts = append(parts, elementJSON(i, e, ik))
+		parts = append(parts, elementJSON(i, e, c.Pat))
 	}
 	url := "/api/ledger/v2/l1/_bulk"
 	if c.Cont {
@@ -167,7 +196,7 @@ func runBulk(c bulkCase, ik bool) map[string]any {
 	if calls == nil {
 		calls = []callObs{}
 	}
-	return map[string]any{"bulk": c.Bulk, "cont": c.Cont, "ik": ik, "status": status, "results": results, "calls": calls}
+	return map[string]any{"bulk": c.Bulk, "cont": c.Cont, "pat": c.Pat, "status": status, "results": results, "calls": calls}
 }
 
 func modeC18(in, out, stats string) {
@@ -189,8 +218,11 @@ func modeC18(in, out, stats string) {
 			fmt.Fprintln(os.Stderr, "bad case", err)
 			os.Exit(2)
 		}
-		for _, ik := range []bool{false, true} {
-			res := runBulk(c, ik)
+		if c.Pat == "" {
+			c.Pat = "none"
+		}
+		{
+			res := runBulk(c)
 			n++
 			for _, e := range c.Bulk {
 				kinds[e.Kind]++
